@@ -6,6 +6,7 @@ import Driver.LpDriver
 import Driver.FloatDriver
 import Driver.LowerDriver
 import Driver.MalDriver
+import Driver.ValDriver
 /-
 `selen_model`: reads protocol lines on stdin, prints exactly one result line per
 input line.  State is reset by `case <id>`.
@@ -50,6 +51,7 @@ def step (st : St) (line : String) : St × String :=
     else if w.startsWith "lw." then
       let (c, out) := lowerStep st.lower ws
       ({ st with lower := c }, out)
+    else if w.startsWith "vd." then (st, valStep ws)
     else if w.startsWith "mal." then
       let (c, out) := malStep st.mal ws
       ({ st with mal := c }, out)
